@@ -90,10 +90,23 @@ var everythingPolicy = sync.OnceValue(func() *bluemonday.Policy {
 
 func genC14(t *rapid.T) *Case {
 	c := &Case{}
-	if rapid.IntRange(0, 3).Draw(t, "everything") == 0 {
+	switch rapid.IntRange(0, 7).Draw(t, "everything") {
+	case 0, 1:
 		c.Kind = "everything"
 		c.Spec = &Spec{Base: "UGC"}
-	} else {
+	case 2:
+		// a src rewriter with any subset of the URL options (possibly none): the rewriter's
+		// argument must be usable whatever the src looks like
+		c.Spec = &Spec{Base: rapid.SampledFrom([]string{"New", "Zero"}).Draw(t, "rwbase"), Ops: []Op{
+			{Kind: "AllowAttrs", Attrs: []string{"src", "href", "id"}, ValRe: -1, Scope: rapid.SampledFrom([]string{"global", "els"}).Draw(t, "rwscope"), Names: []string{"img", "video", "audio", "source", "iframe", "embed", "track", "input", "a"}},
+			{Kind: "AllowElements", Names: []string{"img", "video", "audio", "source", "iframe", "embed", "track", "input", "a"}, ValRe: -1},
+			{Kind: "RewriteSrc", Fn: rapid.IntRange(0, len(rewriters)-1).Draw(t, "rwfn"), ValRe: -1}}}
+		for _, k := range []string{"RequireParseableURLs", "AllowRelativeURLs", "AllowStandardURLs", "AllowDataURIImages"} {
+			if rapid.IntRange(0, 2).Draw(t, "rw_"+k) == 0 {
+				c.Spec.Ops = append(c.Spec.Ops, Op{Kind: k, B: true, ValRe: -1})
+			}
+		}
+	default:
 		c.Spec = genSpec(t, nil)
 	}
 	m := BuildModel(c.Spec)
@@ -326,6 +339,24 @@ func fixedC14(r *Rec, tier string, shard, nshards int) []*Case {
 		}(prop)
 	}
 	wg.Wait()
+	// ---- degenerate values for every handler: a handler must reject (or accept) them, never panic
+	degenerate := []string{"", " ", "'", "\"", "''", "\"\"", "' '", "(", ")", "()", ",", ", ,", "a,", ",a", "/", " / ", "\\", "-", "+", ".", "#", "%", "!", "url(", "url()", "rgb(", "rgb()", "1 ", " 1", "1  2", "\t", "\n", "\x00", "\ufffd", "0/0", "a b c d e f g h i j k l", "'\"", "\"'", "-webkit-", "1e999", "99999999999999999999", "#ggg", "#", "calc(", "var(--x)", "initial initial", "inherit,", ",inherit"}
+	for _, prop := range props {
+		h := css.GetDefaultHandler(prop)
+		for _, v := range degenerate {
+			v := v
+			c := &Case{Kind: "handler", Strs: []BStr{BStr(prop), BStr(v)}}
+			res := timedCall(tokenBudget, func() string { h(v); return "" })
+			evals++
+			if res.panicked != nil {
+				hardFail(c, r, fmt.Sprintf("C14: default handler for %q panics on %s: %v", prop, q(v), res.panicked))
+			}
+			if res.timedOut {
+				hardFail(c, r, fmt.Sprintf("C14: default handler for %q does not return within %v on %s", prop, tokenBudget, q(v)))
+			}
+		}
+	}
+	r.ClassN("degenerate_handler_values", len(degenerate)*len(props))
 	// the same through Policy.Sanitize for the shorthand properties (end to end, incl. douceur)
 	if shard == 0 {
 		p := everythingPolicy()
